@@ -197,6 +197,12 @@ func (c *TCPConn) Send(msg Message) (uint64, error) {
 	}
 	len, err := c.sendRaw(b)
 	if err != nil {
+		// Part of the frame may already be on the wire: whatever is written
+		// after it would be taken by the peer for the rest of this frame.
+		// The connection cannot be used anymore.
+		if cerr := c.Close(); cerr != nil {
+			log.Lvl3("closing the connection after a failed send:", cerr)
+		}
 		return len, xerrors.Errorf("sending: %w", err)
 	}
 	return len, nil
